@@ -34,3 +34,4 @@ def check(ctx):
     adapter.noise_source(ctx)
     drivers.phase_shortcut(ctx)
     observables.sv_density_matrix_energy(ctx)
+    drivers.sv_current_hamiltonian(ctx)
